@@ -29,7 +29,12 @@ Inductive c04_case :=
    once behind the request head or ([late]) only after the peer has received the body (the
    client's ExpectContinueTimeout has fired by then); [body_sent]: did the peer receive the
    request body (measured only when the connection is kept) *)
-| ExpectCase (late : bool) (stream : bytes) (obs : obs_resp) (body_sent : option bool).
+| ExpectCase (late : bool) (stream : bytes) (obs : obs_resp) (body_sent : option bool)
+(* request 1 answered by [first]; once the client is done and the connection idle the peer sends
+   [stray] on it; then a GET answered by [seg2] on whichever connection it arrives *)
+| IdleCase (meth first stray seg2 : bytes) (obs1 obs2 : obs_resp)
+(* further Reads of the response body after its terminal result [first]: their results *)
+| AgainCase (meth stream : bytes) (first : berr) (again : list berr).
 
 Definition herr_eqb (a b : herr) : bool :=
   match a, b with
@@ -136,6 +141,19 @@ Definition c04_check (c : c04_case) : bool :=
           | None => true
           end
       | (_, _) => match o with ORej _ => true | _ => false end
+      end
+  | IdleCase m first stray seg2 o1 o2 =>
+      match client_run true None [EvReq m first; EvIdleBytes stray; EvReq (bs "GET") seg2] with
+      | [Some (r1, b1); Some (r2, b2)] => view_matches r1 b1 o1 && view_matches r2 b2 o2
+      | _ => false
+      end
+  | AgainCase m s first again =>
+      match client_read m s with
+      | Some cv =>
+          Bool.eqb (berr_eqb (b_end (cv_body cv)) BOk) (berr_eqb first BOk) &&
+          list_eqb berr_eqb again
+            (client_reads_again true (r_framing (cv_resp cv)) first (length again))
+      | None => false
       end
   | ConnCase m s seg2 o1 same o2 =>
       match conn_exchanges reuse_real [] [(m, s); (bs "GET", seg2)] with
